@@ -162,6 +162,45 @@ def run(res, replay=None):
                                   % (ITY_PRIM[bt], bl, io[3 * i + 2], exp, cxx, std),
                                   {"schema_xml": pc.xml, "blockLength": bl, "observed": io[3 * i + 2], "expected": exp})
 
+    # ---- (d) trait formula with nested-group totals beyond the numInGroup type ----------------
+    ns = Schema("hs_nest8", big_endian=False, sid=11)
+    ns.add(TypeDef("messageHeader", "composite", members=[TypeDef(n, "type", prim="uint16") for n in ("blockLength", "templateId", "schemaId", "version")]))
+    ns.add(TypeDef("dim8", "composite", members=[TypeDef("blockLength", "type", prim="uint16"), TypeDef("numInGroup", "type", prim="uint8")]))
+    ns.add(TypeDef("vd", "composite", members=[TypeDef("length", "type", prim="uint8"), TypeDef("varData", "type", prim="uint8", length=0)]))
+    nm = Message("N", 1)
+    nm.fields.append(Field("f", 1, "uint8"))
+    og = Group("outer", 10, "dim8"); og.fields.append(Field("a", 1, "uint8"))
+    ig = Group("inner", 11, "dim8"); ig.fields.append(Field("b", 1, "uint16")); og.groups.append(ig)
+    nm.groups.append(og)
+    ns.messages.append(nm)
+    nc = prepare_fixed(ns, cfgs[:2])
+    if nc.error:
+        res.violation("driver-build:nest8", "nested-total probe: " + nc.error[1][-300:], {"no_failing_input": True, "correspondence": "T1 probe"})
+    else:
+        lay = parse_layout(model.run([model_msg_line(ns, nm)])[0])
+        for outer_n, inner_n in ((2, 200), (3, 255), (1, 255), (2, 128)):
+            inner = lambda: {"block": bytes(2), "groups": [], "data": []}
+            v = {"block": bytes(lay["cbl"]), "data": [], "groups": [{"dimbg": bytes(3), "wbl": lay["level"]["groups"][0]["cbl"], "entries": [
+                {"block": bytes(lay["level"]["groups"][0]["cbl"]), "data": [],
+                 "groups": [{"dimbg": bytes(3), "wbl": 2, "entries": [inner() for _ in range(inner_n)]}]} for _ in range(outer_n)]}]}
+            vt = " ".join(vtree_tokens(v))
+            eo = model.run([model_msg_line(ns, nm), "encv %s %s" % (hx(bytes(8)), vt), "traitv " + vt])
+            img = bytes.fromhex(eo[1])
+            tv = dict(x.split("=") for x in eo[2].split())
+            args = [x for x in tv["counts"].split(",") if x]
+            for (cxx, std), exe in nc.exes.items():
+                rc, io, err = run_lines(exe, ["use N", "buf " + hx(img), "size", "traitsize " + " ".join(args)])
+                res.count(("nest8", outer_n, inner_n, cxx, std), True)
+                if tv["size"] != str(len(img)):
+                    found = True
+                    res.violation("model-trait", "model trait formula %s != image length %d" % (tv["size"], len(img)), {"counts": args})
+                elif io[2] != str(len(img)) or io[3] != str(len(img)):
+                    found = True
+                    res.violation("trait-size:nested-total",
+                                  "%d outer entries x %d inner entries (uint8 numInGroup): size_bytes = %s, message_traits::size_bytes(%s) = %s, "
+                                  "image length %d (%s -std=%s)" % (outer_n, inner_n, io[2], ", ".join(args), io[3], len(img), cxx, std),
+                                  {"schema_xml": nc.xml, "counts": args, "image_len": len(img), "observed": io[3]})
+
     # ---- (a) images ----------------------------------------------------
     nschemas = 5 if res.tier == "quick" else 30
     nimgs = 6 if res.tier == "quick" else 20
